@@ -24,7 +24,10 @@ def jobs(tier):
     for pre, spec, k in (('sat', S, 6), ('lra', L, 1), ('dl', D, 5), ('ov', O, 4)):
         ms = [m for m in members(spec.jobs(tier)) if 'pop' in m.desc or 'history' in m.desc]
         if tier == 'quick':
-            ms = ms[::3] if pre == 'dl' else ms[::2] if pre in ('sat', 'lra') else ms
+            # families whose whole point is an undo (backjump to root with a non-empty propagation queue, restored predecessors) are never thinned out
+            keep = set(L.fmt(*x) for x in L.family_implied_conflict()) if pre == 'lra' else set(th + ': ' + D.fmt(*x) for x in D.family_undo() for th in ('idl', 'rdl')) if pre == 'dl' else set()
+            step = 3 if pre == 'dl' else 2 if pre in ('sat', 'lra') else 1
+            ms = [m for i, m in enumerate(ms) if i % step == 0 or m.desc in keep]
         for m in ms:
             m.name = pre + '/' + m.name
             if m.params and m.params[0] == 1 and len(m.params) > 2 and m.params[1] == len(m.params) - 2:
